@@ -10,6 +10,7 @@ import (
 	"os/exec"
 	"path/filepath"
 	"regexp"
+	"strconv"
 	"strings"
 	"testing"
 )
@@ -62,9 +63,9 @@ var cases = []tcase{
 		{"nano_handler.go", "preformatted: slices.Clip(h.preformatted),", "preformatted: h.preformatted,"}}, nil, "chain", "nano:0"},
 	{"new mutex in clone", []edit{
 		{"text_handler.go", "\t\toutMu:        h.outMu,", "\t\toutMu:        &sync.Mutex{},"}}, nil, "conc", "text:2"},
-	{"H1 explicit Unlock after the Write, early return in freeBuffer", []edit{
+	{"Unlock not deferred (explicit Unlock after the Write): a panicking Writer leaves the mutex locked", []edit{
 		{"json_handler.go", lockWrite, "\th.outMu.Lock()\n\tn, err := h.out.Write(*buf)\n\th.outMu.Unlock()\n\t_ = n\n\treturn err"},
-		{"buffer.go", "\tif cap(*buf) <= maxBufferSize {\n\t\t*buf = (*buf)[:0]\n\t\tbufferPool.Put(buf)\n\t}", "\tif cap(*buf) > maxBufferSize {\n\t\treturn\n\t}\n\t*buf = (*buf)[0:0]\n\tbufferPool.Put(buf)"}}, nil, "conc", "ok"},
+		{"buffer.go", "\tif cap(*buf) <= maxBufferSize {\n\t\t*buf = (*buf)[:0]\n\t\tbufferPool.Put(buf)\n\t}", "\tif cap(*buf) > maxBufferSize {\n\t\treturn\n\t}\n\t*buf = (*buf)[0:0]\n\tbufferPool.Put(buf)"}}, nil, "conc", "json:13"},
 	{"H2 atomic metrics counter in Handle", []edit{
 		{"nano_handler.go", "\tpreformatted []byte\n}", "\tpreformatted []byte\n\tnrec         uint64\n}"},
 		{"nano_handler.go", "func (h *NanoHandler) Handle(_ context.Context, r slog.Record) error {\n", "func (h *NanoHandler) Handle(_ context.Context, r slog.Record) error {\n\tatomic.AddUint64(&h.nrec, 1)\n"}}, nil, "conc", "ok"},
@@ -197,7 +198,7 @@ func TestRecogniser(t *testing.T) {
 					return // refused: acceptable for a breaking change (never a pass)
 				}
 				p := strings.Split(c.want, ":")
-				idx := int(p[1][0] - '0')
+				idx, _ := strconv.Atoi(p[1])
 				if fs := facts[p[0]]; len(fs) <= idx || fs[idx] != "false" {
 					t.Fatalf("fact %s must be false, got %v (notes %v)", c.want, facts, notes)
 				}
